@@ -221,6 +221,10 @@ class AllocAnalysis(Analysis):
         if rp0 is not None and "->" in rp0 and "->" not in p and "." not in p \
                 and "[" not in p and "[" not in rp0:
             st = sset(st, "l:" + p, rp0)
+        elif rp0 is not None and "->" in p and "[" not in p and "->" not in rp0 \
+                and "." not in rp0 and "[" not in rp0 and rp0 in self.locals:
+            # member = local (store-back): the local now stands for the member
+            st = sset(st, "l:" + rp0, p)
         # store-back  P = Q
         rp = path(rhs)
         if rp is not None and sget(st, "r:" + rp) == p:
